@@ -1,5 +1,6 @@
 """C16 — cqueue consumes each event once; select! returns a fully run arm (structural clauses)."""
 from lib import *
+import witness
 from props import shared
 from props.shared import *
 import macrowit
@@ -203,6 +204,27 @@ def check(ctx):
     ctx.import_rules("C02", r"^atomic-option/")
     # an event that was queued is consumed with its bottom half: once the select coroutine is resumed by continue_bottom nothing may stop it
     # before the bottom half - EventSender::yield_back (which runs on that resume) is not a cancellation point (seed C16-8)
-    ctx.never("<may::cqueue::EventSender as may::coroutine_impl::EventSource>::yield_back", Call(r"may::cancel::CancelImpl::check_cancel|may::cancel::trigger_cancel_panic"),
-              "yield-back/not-a-cancellation-point", "EventSender::yield_back never raises the Cancel panic: a cancel that landed after the event was queued must not skip the bottom half of an event "
+    YB = "<may::cqueue::EventSender as may::coroutine_impl::EventSource>::yield_back"
+    ctx.never(YB, Call(r"may::cancel::CancelImpl::check_cancel"),
+              "yield-back/not-a-cancellation-point", "EventSender::yield_back never looks at the cancel bit: a cancel that landed after the event was queued must not skip the bottom half of an event "
               "that poll (or the final drain) has already consumed")
+    # (F30) the one exception is told apart by the passed-in result: only yield_with's user-space short-circuit (cancel seen before subscribe:
+    # the event was never queued) passes one in; then the bottom half must not run - no poll will ever consume that event
+    PARA_SOME = variant_of_call(r"may::yield_now::get_co_para", "Some")
+    ctx.guarded(YB, Call(r"may::cancel::trigger_cancel_panic", transitive=False), PARA_SOME, "yield-back/cancel-panic-only-if-event-not-sent",
+                "EventSender::yield_back raises the Cancel panic only when a result was passed in (the event was not sent)", pred_label="edge `get_co_para()` is Some")
+    ctx.guarded(YB, Call(r"may::cancel::trigger_cancel_panic", transitive=False), call_false(r"std::thread::panicking"), "yield-back/no-double-panic",
+                "…and not while the coroutine is already unwinding", pred_label="edge `thread::panicking()` is false")
+    f = ctx.fn("R-EXIT", YB, "yield-back/unsent-event-never-runs-bottom")
+    if f is not None:
+        es = ctx.edges(f, PARA_SOME)
+        blk, _ = ctx.edge_blocker(f, call_true(r"std::thread::panicking"))
+        trig = ctx.an.sites(f, Call(r"may::cancel::trigger_cancel_panic", transitive=False), "must")
+        r = ctx.an.reach(f, [Point(tb, 0) for _, tb, _ in es], blocked=trig, blocked_edges=blk)
+        bad = [x for x in f.ret_points() if x in r]
+        ctx.ob("R-EXIT", YB, "yield-back/unsent-event-never-runs-bottom", bool(es) and not bad,
+               "when yield_with short-circuits on a cancel (result passed in, subscribe skipped, no event queued) yield_back does not return into the bottom half" if es and not bad else
+               "EventSender::yield_back returns normally when yield_with skipped subscribe because of a cancel: send() returns, the bottom half runs although no event was queued and no poll "
+               "ever consumes it", f.where())
+    # ---- R-TYPE (F33): only the owner polls the single-consumer event queue
+    witness.run_witness(ctx, "c16_cqueue", ctx.prog.extract_info.get("target"))
